@@ -91,7 +91,7 @@ DNuGet ==
 
 (* ------------------------------------------------------------------- PyPI *)
 \* PEP 440.  Semantic value [epoch, rel, pre, post, dev, local] x spelling variant sp.
-LocalTexts == <<"1", "abc", "abc.1", "1.abc", "abd", "2", "10", "abc.10", "abc.9">>
+LocalTexts == <<"1", "abc", "abc.1", "1.abc", "abd", "2", "10", "abc.10", "abc.9", "01", "010", "02">>     \* the last three: numeric segments with leading zeros (compared as integers)
 \* local segments: alphabetic ranks abc=1 < abd=2
 LocalKey(i) == CASE i = 0 -> <<>>
   [] i = 1 -> <<[k |-> "n", n |-> 1, r |-> 0]>>
@@ -103,6 +103,9 @@ LocalKey(i) == CASE i = 0 -> <<>>
   [] i = 7 -> <<[k |-> "n", n |-> 10, r |-> 0]>>
   [] i = 8 -> <<[k |-> "s", n |-> 0, r |-> 1], [k |-> "n", n |-> 10, r |-> 0]>>
   [] i = 9 -> <<[k |-> "s", n |-> 0, r |-> 1], [k |-> "n", n |-> 9, r |-> 0]>>
+  [] i = 10 -> <<[k |-> "n", n |-> 1, r |-> 0]>>
+  [] i = 11 -> <<[k |-> "n", n |-> 10, r |-> 0]>>
+  [] i = 12 -> <<[k |-> "n", n |-> 2, r |-> 0]>>
 PhaseText(ph, sp) == CASE ph = 1 -> (IF sp = 0 THEN "a" ELSE IF sp = 1 THEN "alpha" ELSE "A")
                        [] ph = 2 -> (IF sp = 0 THEN "b" ELSE IF sp = 1 THEN "beta" ELSE "B")
                        [] ph = 3 -> (IF sp = 0 THEN "rc" ELSE IF sp = 1 THEN "c" ELSE "pre")
@@ -125,7 +128,7 @@ PyRec(e, rel, pre, post, dev, loc, sp) ==
 PyPre == {<<>>, <<1, 0>>, <<1, 1>>, <<2, 0>>, <<3, 1>>}
 PySemQuick ==
   {<<0, <<1, 0>>, p, po, d, l>> : p \in PyPre, po \in {-1, 0, 1}, d \in {-1, 0, 1}, l \in {0, 2}}
-  \cup {<<0, <<1, 0>>, <<>>, -1, -1, l>> : l \in 1..9}
+  \cup {<<0, <<1, 0>>, <<>>, -1, -1, l>> : l \in 1..12}
   \cup {<<0, <<1, 0>>, <<1, 1>>, 0, 1, l>> : l \in {1, 3}}
   \cup {<<e, r, <<>>, -1, -1, 0>> : e \in {0, 1}, r \in {<<1>>, <<1, 0, 0>>, <<1, 0, 1>>, <<1, 1>>, <<0, 9>>, <<1, 0, 0, 0>>, <<1, 0, 0, 1>>, <<2>>}}
   \cup {<<1, <<0, 9>>, <<2, 0>>, -1, 0, 0>>}
